@@ -124,7 +124,7 @@ def run(ctx):
                if r[1] in ("gen-ok", "gen-ill", "layout", "mut-tokens", "artifact")][:5]
     distinct = set()
     for r in R:
-        if r[1] in ("gen-ok", "gen-ill") and "compile:err:parser" not in r[3]:
+        if r[1] in ("gen-ok", "gen-ill", "progen") and "compile:err:parser" not in r[3]:
             distinct.add((r[1], r[2]))
         elif r[1] in ("nest", "layout", "artifact", "known-artifact-core-ir"):
             distinct.add((r[1], r[4]))
